@@ -503,6 +503,17 @@ static void asan_death(void)
 	if (write(1, b, (size_t)n)) {}
 }
 
+// resident set above 1.5 GiB (checked between chunks; never in the middle of one, so chunk hashes stay comparable)
+static bool rss_too_large()
+{
+	FILE *f = fopen("/proc/self/statm", "r");
+	if (!f) return false;
+	unsigned long size = 0, rss = 0;
+	int n = fscanf(f, "%lu %lu", &size, &rss);
+	fclose(f);
+	return n == 2 && rss > (1536UL << 20) / (unsigned long)sysconf(_SC_PAGESIZE);
+}
+
 static int worker_loop(uint64_t base, const char *fpfile, int nsamples)
 {
 	std::unordered_set<uint64_t> fps;
@@ -559,6 +570,7 @@ static int worker_loop(uint64_t base, const char *fpfile, int nsamples)
 			}
 		}
 		if (fpf) fflush(fpf);
+		if (!recycle && rss_too_large()) recycle = true;      // a worker that has grown fat (leaks in the code under test, sanitizer quarantine) is replaced between chunks
 		std::string o;
 		char b[400];
 		snprintf(b, sizeof b, "AGG {\"first\":%llu,\"done\":%llu,\"runs\":%llu,\"ok\":%llu,\"inconclusive\":%llu,\"violations\":%llu,"
